@@ -229,6 +229,7 @@ def cd_case(I, inst, sh, cell):
         expect(I, status != 0, 'failed-cd-status-zero', dict(exists=exists, canon_ok=canon_ok, chdir_ok=chdir_ok))
         expect(I, tuple(curd) == lit('/start') and tuple(I.env.cwd) == lit('/start'), 'failed-cd-moved', None)
         expect(I, tuple(prevd) == (lit('/before') if prev_known else ()), 'failed-cd-changed-previous', None)
+        expect(I, pwd is None, 'failed-cd-changed-PWD', None)
     return dict(role='shell')
 
 # ---- native replay through the real binary ---------------------------------------------------------------
@@ -334,21 +335,55 @@ def replay_and_judge(v):
     return r
 
 def native_cd_or_crash(v):
+    """cd violations: rebuild the model's file-system answers as a real directory tree and compare cwd / PWD / `cd -` target
+    seen by helper programs.  exists & !chdir_ok = the target is a regular file (ENOTDIR after exists() passed)."""
     d = tempfile.mkdtemp(prefix='cicada-verif-c09-')
     try:
-        os.makedirs(os.path.join(d, 'sub'))
-        env = {'HOME': os.path.join(d, 'nohome') if v['op'] == 'cd-home' and 'fail' in v['label'] else d, 'PATH': HELPERS, 'LANG': 'C.UTF-8'}
-        line = v['line'] + ' ; minfd'
-        p = subprocess.run([CICADA, '-c', v['line']], cwd=d, env=env, stdin=subprocess.DEVNULL, stdout=subprocess.PIPE, stderr=subprocess.PIPE, timeout=15)
+        d = os.path.realpath(d)
+        inp = v.get('inputs') or {}
+        op = v['op']
+        has_prev = bool(inp.get('has_prev', 0)); exists = op != 'cd-fail' and bool(inp.get('exists', 1))
+        canon_ok = bool(inp.get('canon_ok', 1)); chdir_ok = bool(inp.get('chdir_ok', 1))
+        os.makedirs(os.path.join(d, 'before')); os.makedirs(os.path.join(d, 'start'))
+        out = os.path.join(d, 'r.jsonl')
+        home = os.path.join(d, 'home')
+        def mk(path):
+            if not exists: return
+            if chdir_ok: os.makedirs(path, exist_ok=True)
+            else: open(path, 'w').close()
+        if op == 'cd': mk(os.path.join(d, 'start', 'sub')); target = os.path.join(d, 'start', 'sub')
+        elif op == 'cd-home': mk(home); target = home
+        elif op == 'cd-fail': target = os.path.join(d, 'start', 'missing')
+        else: target = os.path.join(d, 'before')
+        functional = v['label'] != 'crash' and (canon_ok or not exists) and not (op == 'cd-dash' and not (exists and chdir_ok))
+        env = {'HOME': home, 'PATH': HELPERS + ':' + os.path.join(hsupport.VERIF, 'helpers/bin'), 'LANG': 'C.UTF-8', 'ARGV_OUT': out, 'PWD': os.path.join(d, 'start')}
+        pre = ['cd ../start'] if has_prev else []
+        line = ' ; '.join(pre + [v['line'], 'envdump', 'cd -', 'envdump'])
+        p = subprocess.run([CICADA, '-c', line], cwd=os.path.join(d, 'before' if has_prev else 'start'), env=env, stdin=subprocess.DEVNULL, stdout=subprocess.PIPE, stderr=subprocess.PIPE, timeout=15)
         err = p.stderr.decode('utf-8', 'replace')
         crashed = p.returncode == 101 or 'panicked' in err
-        # cd into a missing home directory
-        if not crashed and v['op'] in ('cd-home', 'cd-fail', 'cd'):
-            env['HOME'] = os.path.join(d, 'nohome')
-            p = subprocess.run([CICADA, '-c', 'cd'], cwd=d, env=env, stdin=subprocess.DEVNULL, stdout=subprocess.PIPE, stderr=subprocess.PIPE, timeout=15)
-            err = p.stderr.decode('utf-8', 'replace'); crashed = p.returncode == 101 or 'panicked' in err
-            if crashed: line = 'cd   (with HOME pointing to a missing directory)'
-        return dict(witness=line, status=p.returncode, stderr=err[-300:], reproduced=crashed if v['label'] == 'crash' else None)
+        recs = [json.loads(x) for x in open(out)] if os.path.exists(out) else []
+        res = dict(witness=line, tree=dict(target=target, target_is='dir' if exists and chdir_ok else 'file' if exists else 'missing', has_prev=has_prev), status=p.returncode, stderr=err[-300:], records=recs)
+        if v['label'] == 'crash':
+            if not crashed and op in ('cd-home', 'cd-fail', 'cd'):
+                env['HOME'] = os.path.join(d, 'nohome')
+                p = subprocess.run([CICADA, '-c', 'cd'], cwd=d, env=env, stdin=subprocess.DEVNULL, stdout=subprocess.PIPE, stderr=subprocess.PIPE, timeout=15)
+                err = p.stderr.decode('utf-8', 'replace'); crashed = p.returncode == 101 or 'panicked' in err
+                if crashed: res['witness'] = 'cd   (with HOME pointing to a missing directory)'
+            res['reproduced'] = crashed; return res
+        if not functional or len(recs) != 2:
+            res['reproduced'] = None; res['note'] = 'this combination of file-system answers cannot be staged with real directories'; return res
+        start = os.path.join(d, 'start'); before = os.path.join(d, 'before')
+        ok = exists and chdir_ok and canon_ok and not (op == 'cd-dash' and not has_prev)
+        want1 = target if ok else start
+        if ok: want2 = start
+        else: want2 = before if has_prev else start
+        problems = []
+        if recs[0]['cwd'] != want1: problems.append('after the statement the working directory is %r, expected %r' % (recs[0]['cwd'], want1))
+        if recs[0]['env'].get('PWD') != want1: problems.append('after the statement a child sees PWD=%r, expected %r' % (recs[0]['env'].get('PWD'), want1))
+        if recs[1]['cwd'] != want2: problems.append('a following `cd -` leads to %r, expected %r' % (recs[1]['cwd'], want2))
+        res['problems'] = problems; res['reproduced'] = bool(problems)
+        return res
     finally:
         shutil.rmtree(d, ignore_errors=True)
 
